@@ -159,6 +159,68 @@ Proof.
   reflexivity.
 Qed.
 
+(* ---------- dtype on the copy path: integer / bool arguments of invert, normalize, weight_conversion ---------- *)
+Lemma honours_promote flt copy s : wf s ->
+  (flt = false -> copy = false -> promote_or_copy flt copy s = None) /\
+  (flt = true \/ copy = true -> exists s1, promote_or_copy flt copy s = Some s1 /\ honours_copy s s1 copy (rd s)).
+Proof.
+  intros Hw. split.
+  - intros -> ->. reflexivity.
+  - intros H. unfold promote_or_copy. destruct flt.
+    + eexists. split; [reflexivity|]. apply honours_copy_if. exact Hw.
+    + destruct copy; [|destruct H; discriminate]. eexists. split; [reflexivity|].
+      exact (honours_copy_if true s Hw).
+Qed.
+
+(* refuses (before touching anything) exactly for copy=False on a non-float array; otherwise the contract, with a FRESH
+   (float) object whenever the argument is not float *)
+Theorem invert_copy_d flt copy s : wf s ->
+  (flt = false -> copy = false -> invert_prog_d flt copy s = RaiseParam) /\
+  (flt = true \/ copy = true -> exists s', invert_prog_d flt copy s = Done s' /\ honours_copy s s' copy (invert (rd s))).
+Proof.
+  intros Hw. destruct (honours_promote flt copy s Hw) as [H1 H2]. unfold invert_prog_d. split.
+  - intros Hf Hc. rewrite (H1 Hf Hc). reflexivity.
+  - intros H. destruct (H2 H) as [s1 [E Hh]]. rewrite E. eexists. split; [reflexivity|].
+    exact (honours_write invert copy s s1 _ Hh).
+Qed.
+
+Theorem normalize_copy_d n flt copy s : wf s ->
+  (flt = false -> copy = false -> normalize_prog_d n flt copy s = RaiseParam) /\
+  (flt = true \/ copy = true -> exists s', normalize_prog_d n flt copy s = Done s' /\ honours_copy s s' copy (normalize n (rd s))).
+Proof.
+  intros Hw. destruct (honours_promote flt copy s Hw) as [H1 H2]. unfold normalize_prog_d. split.
+  - intros Hf Hc. rewrite (H1 Hf Hc). reflexivity.
+  - intros H. destruct (H2 H) as [s1 [E Hh]]. rewrite E. cbv zeta. eexists. split; [reflexivity|].
+    destruct Hh as [E0 Hh']. rewrite E0.
+    exact (honours_write (fun W i j => W i j / maxabs n (rd s)) copy s s1 _ (conj E0 Hh')).
+Qed.
+
+Lemma invert_prog_d_float copy s : invert_prog_d true copy s = Done (invert_prog copy s).
+Proof. reflexivity. Qed.
+Lemma normalize_prog_d_float n copy s : normalize_prog_d n true copy s = Done (normalize_prog n copy s).
+Proof. reflexivity. Qed.
+
+Theorem wc_copy_d n wcm flt copy s : wf s ->
+  match weight_conversion_str n (rd s) wcm with
+  | None => wc_prog_d n wcm flt copy s = RaiseNotImplemented
+  | Some R =>
+      (wcm <> codes "binarize" -> flt = false -> copy = false -> wc_prog_d n wcm flt copy s = RaiseParam) /\
+      (wcm = codes "binarize" \/ flt = true \/ copy = true ->
+         exists s', wc_prog_d n wcm flt copy s = Done s' /\ honours_copy s s' copy R)
+  end.
+Proof.
+  intros Hw. unfold weight_conversion_str, wc_prog_d.
+  destruct (codes_eqb_spec wcm c_binarize) as [Eb|Nb].
+  { split; [intros H; exfalso; apply H; exact Eb|]. intros _. eexists. split; [reflexivity|apply binarize_copy; exact Hw]. }
+  destruct (codes_eqb wcm c_normalize).
+  { destruct (normalize_copy_d n flt copy s Hw) as [H1 H2]. split; [intros _; exact H1|].
+    intros [H|H]; [exfalso; apply Nb; exact H|exact (H2 H)]. }
+  destruct (codes_eqb wcm c_lengths).
+  { destruct (invert_copy_d flt copy s Hw) as [H1 H2]. split; [intros _; exact H1|].
+    intros [H|H]; [exfalso; apply Nb; exact H|exact (H2 H)]. }
+  reflexivity.
+Qed.
+
 (* ---------- contrast: a trailing rebinding statement (logtransform, autofix) ---------- *)
 (* with copy=False the returned object is NOT the argument and the argument still holds its old contents: the
    "argument itself holds the result" half fails for every g that changes the array *)
